@@ -22,6 +22,7 @@ typedef struct vm_map_s { uintptr_t base; size_t size; uint8_t* st; int live; lo
 static vm_map_t vm_maps[8192]; static int vm_nmaps = 0; static long vm_next_id = 0;
 typedef struct vm_ev_s { int kind; uintptr_t addr; size_t size; int arg; int ok; long long t_ns; } vm_ev_t;
 static vm_ev_t* vm_ev = NULL; static long vm_nev = 0, vm_ev_cap = 0;
+static long vm_foreign_unmaps = 0; static uintptr_t vm_foreign_addr = 0; static size_t vm_foreign_size = 0, vm_foreign_covered = 0;   // munmap of memory not (any more) mapped through the shim
 static long verif_calls = 0;            // OS requests seen so far (all four kinds)
 static long verif_fail_at = -1;         // refuse request number k ...
 static int  verif_fail_from = 0;        // ... and every later one
@@ -93,7 +94,13 @@ static int verif_munmap(void* a, size_t n) {
   if (vm_should_fail(VM_MUNMAP)) { vm_log(VM_MUNMAP, a, n, 0, 0); VM_UNLOCK(); errno = EINVAL; return -1; }
   int r = munmap(a, n);
   vm_log(VM_MUNMAP, a, n, 0, r == 0);
-  if (r == 0) vm_range((uintptr_t)a, n, 4);
+  if (r == 0) {
+    // the range must be memory that was mapped through this shim and is still mapped: anything else is memory the allocator does not
+    // (or no longer) own - e.g. the trimmed-off front of an over-allocation unmapped a second time
+    size_t covered = vm_range((uintptr_t)a, n, 4);
+    size_t want = n & ~(size_t)(VM_PAGE - 1);
+    if (covered < want) { if (vm_foreign_unmaps++ == 0) { vm_foreign_addr = (uintptr_t)a; vm_foreign_size = n; vm_foreign_covered = covered; } }
+  }
   VM_UNLOCK();
   return r;
 }
